@@ -24,7 +24,7 @@ ASSUMPTIONS = [
 ]
 BOUNDS = {
     "quick": {"program_size": 2, "control_menu_size": 3, "drivers": len(P.DRIVERS_QUICK)},
-    "thorough": {"program_size": 3, "control_menu_size": 4, "drivers": len(P.DRIVERS_THOROUGH)},
+    "thorough": {"program_size": "2 over the full menu, 3 over the core menu", "control_menu_size": 3, "drivers": len(P.DRIVERS_THOROUGH)},
 }
 CHUNK = 8
 
@@ -51,7 +51,7 @@ def program_sets(tier):
     return [("gen", dict(tails=(True, False) if tier == "thorough" else (True,), key=("gen2", tier))),
             ("ctl", dict(size=C.SIZE[tier] + 1, only=frozenset(CONTROL if tier == "thorough" else CONTROL_QUICK),
                          key=("ctl", tier), tails=(True, False))),
-            C.odd_set(tier)]
+            C.odd_set(tier)] + C.core3_sets(tier)
 
 
 def units(tier):
